@@ -25,7 +25,40 @@ import t4eval
 import c03_gen as G
 from common import clist, cfloat, cpair, cn, cz, cnat, copt
 
-THEOREMS = []      # filled below
+THEOREMS = [
+    'C03_box_facet_k',
+    'C03_box_inside',
+    'C03_rpp_facet_k',
+    'C03_rpp_inside',
+    'C03_sph_facet_k',
+    'C03_sph_inside',
+    'C03_rcc_facet_k',
+    'C03_rcc_inside',
+    'C03_rhp15_facet_k',
+    'C03_rhp15_inside',
+    'C03_rhp9_facet_k',
+    'C03_rhp9_inside',
+    'C03_rhp9_regular',
+    'C03_hex_is_rhp',
+    'C03_rec12_facet_k',
+    'C03_rec12_inside',
+    'C03_rec10_facet_k',
+    'C03_rec10_inside',
+    'C03_trc_facet_k',
+    'C03_trc_inside',
+    'C03_ell_axis_facet_k',
+    'C03_ell_axis_inside',
+    'C03_ell_foci_facet_k',
+    'C03_ell_foci_inside',
+    'C03_wed_facet_k',
+    'C03_wed_inside',
+    'C03_arb_facet_k',
+    'C03_arb_inside',
+    'C03_sides_pm1',
+    'C03_number_one',
+    'C03_expand_macro_den',
+    'C03_expand_facet_zero_is_last',
+]
 TRUSTED = [
     'hand-written model coq/C03/Vec.v + Model.v (modelled, tied by execution '
     'only); numpy matmul in transformation_quad modelled as a plain 4x4 '
